@@ -20,6 +20,7 @@ import RtcModel.Lemmas.C07Ice
 import RtcModel.Lemmas.C07Dtls
 import RtcModel.Lemmas.C07Sctp
 import RtcModel.Lemmas.C07Media
+import RtcModel.Lemmas.C07Sdp
 
 namespace RtcModel.Theorems.C07
 open RtcModel.C07
@@ -235,5 +236,31 @@ theorem noPanic_udptl (bs : List UInt8) (s : String) : runSlice Media.udptlRecv 
   safe_noPanic (Media.udptlRecv_safe bs.toArray _) s
 theorem allocBound_udptl (bs : List UInt8) : (runSlice Media.udptlRecv bs).allocs ≤ 17 * bs.length := by
   simpa [runSlice] using safe_allocs (Media.udptlRecv_safe bs.toArray (Buf.ofList []))
+
+/-! ## signaling side (src/transports/ice/mod.rs candidate lines, src/peer_connection.rs mid arithmetic) -/
+
+/-- `IceCandidate::from_sdp` is total on every (ASCII) candidate string: the `parts[..]` indexing stays inside the
+token vector and the `tcptype` search loop terminates. -/
+theorem noPanic_candidateFromSdp (s : List UInt8) (b : Buf) (n : Nat) (site : String) : Sdp.candFromSdp s b n ≠ .panic site :=
+  safe_noPanic (Sdp.candFromSdp_safe s b n) site
+
+/-- the remote-mid bookkeeping of `set_remote_description` (after the `fix:` commit, `saturating_add`) is total for
+every 16-bit mid and keeps `next_mid` inside `u16`. -/
+theorem mid_update_total (nextMid mid : Nat) (b : Buf) (n : Nat) (site : String) (hm : nextMid ≤ 65535) :
+    Sdp.midUpdate nextMid mid b n ≠ .panic site ∧
+    ∀ r b' n', Sdp.midUpdate nextMid mid b n = .ok r b' n' → r ≤ 65535 := by
+  have h := Sdp.midUpdate_safe nextMid mid b n
+  refine ⟨safe_noPanic h site, ?_⟩
+  intro r b' n' hr
+  unfold safe at h
+  rw [hr] at h
+  simp only at h
+  omega
+
+/-- witness kept visible: the pre-fix arithmetic `mid_val + 1` panics for `a=mid:65535` in a build with overflow
+checks (cargo's dev profile) — and silently wraps to 0 in the release profile. -/
+theorem mid_update_unfixed_witness :
+    (Sdp.midUpdateUnfixed true 0 65535 (Buf.ofList []) 0).isPanic = true ∧
+    (Sdp.midUpdateUnfixed false 3 65535 (Buf.ofList []) 0).isPanic = false := by decide +kernel
 
 end RtcModel.Theorems.C07
